@@ -69,6 +69,12 @@ def run(tier, seed, rep):
         # a third of the targets carry ambiguity intervals (queries and occurrences never cut through one, see below)
         T = anngen.annotation(rnd, 1, 40, alphabet=alpha, density=rnd.choice([0.1, 0.3, 0.6]),
                               p={"interval": 0.5 if j % 3 == 0 else 0, "charge": 0.1, "unknown": 0.1, "labile": 0.1})
+        if j % 6 == 1:
+            # a charge state (sometimes with adducts) and sparse residue modifications, nothing else: many stretches of such a
+            # target carry nothing but the charge
+            T = anngen.annotation(rnd, 2, 14, alphabet=alpha, density=rnd.choice([0.0, 0.1, 0.3]),
+                                  p={k: 0 for k in ("labile", "static", "isotope", "unknown", "nterm", "cterm", "interval")}
+                                  | {"charge": 1.0, "adducts": 0.25})
         # make repeats likely: duplicate a modified stretch
         if len(T["seq"]) >= 6 and rnd.random() < 0.6 and not T["intervals"]:
             k = rnd.randint(1, 3)
